@@ -6,6 +6,7 @@ Position in the string implies column index.
 """
 
 import re
+import string
 from dataclasses import dataclass
 from typing import Optional, Dict, Any
 
@@ -30,6 +31,19 @@ class FormatSpec:
 
 # Reserved field names that cannot be used for custom captures
 RESERVED_NAMES = {'date', 'amount', 'location', 'description', '_', '*', 'field'}
+
+
+def _template_fields(template: str) -> list:
+    """Names that str.format(**captures) will look up when the template is expanded.
+
+    Those are its replacement fields as str.format reads them: {name}, but also {name:>8},
+    {name!s}, { name } (blanks belong to the key), {name.attr}, {name[0]} and {} / {0}.
+    """
+    try:
+        return [field_name for _, field_name, _, _ in string.Formatter().parse(template)
+                if field_name is not None]
+    except ValueError as e:
+        raise ValueError(f"Invalid description template '{template}': {e}")
 
 
 def parse_format_string(format_str: str, description_template: Optional[str] = None) -> FormatSpec:
@@ -148,7 +162,7 @@ def parse_format_string(format_str: str, description_template: Optional[str] = N
 
     # Validate: template references must exist in captures
     if description_template:
-        for ref in re.findall(r'\{(\w+)\}', description_template):
+        for ref in _template_fields(description_template):
             if ref not in custom_captures:
                 available = ', '.join('{' + k + '}' for k in custom_captures)
                 raise ValueError(
